@@ -294,6 +294,7 @@ func TestC22_Hostile(t *testing.T) {
 		class := rapid.SampledFrom([]string{"short_length", "over_max", "unknown_id", "body_truncated", "body_extended", "id_truncated", "random_frame", "garbage_stream"}).Draw(t, "hostile")
 		expectLenErr := false
 		idCollides := false
+		overAt, overBy := -1, uint32(0)
 		for i := 0; i < n; i++ {
 			m, _ := genMessageEncodable(t)
 			b, err := gnet.EncodeMessage(m)
@@ -325,7 +326,8 @@ func TestC22_Hostile(t *testing.T) {
 				expectLenErr = true
 			case "over_max":
 				f := make([]byte, 4)
-				binary.LittleEndian.PutUint32(f, rapid.SampledFrom([]uint32{0, 1, 100, 0x7fffffff, 0x80000000, 0xffffffff}).Draw(t, "over")+uint32(1<<20))
+				overBy = rapid.SampledFrom([]uint32{1, 2, 101, 0x7fffffff, 0x80000000, 0xffffffff}).Draw(t, "over")
+				overAt = len(stream)
 				stream = append(stream, append(f, rapid.SliceOfN(rapid.Byte(), 4, 12).Draw(t, "tail")...)...)
 				expectLenErr = true
 			case "unknown_id":
@@ -353,8 +355,16 @@ func TestC22_Hostile(t *testing.T) {
 				stream = append(stream, rapid.SliceOfN(rapid.Byte(), 5, 80).Draw(t, "garbage")...)
 			}
 		}
-		if 1<<20 <= maxLen {
-			maxLen = 1<<20 - 1
+		if overAt >= 0 {
+			// the over-long prefix is written once the limit is known (the limit is the longest well-formed frame of the stream)
+			v := uint64(maxLen) + uint64(overBy)
+			if v > 0xffffffff || overBy >= 0x7fffffff {
+				v = uint64(overBy)
+				if v <= uint64(maxLen) {
+					v = 0xffffffff
+				}
+			}
+			binary.LittleEndian.PutUint32(stream[overAt:], uint32(v))
 		}
 		chunks := [][]byte{stream}
 		if rapid.Bool().Draw(t, "split") && len(stream) > 2 {
